@@ -68,7 +68,7 @@ def oracle(cases, impl):
                                   what="merged EXISTS over keys of which some belong to a partition not hosted here must be rejected as a whole (never a partial count); with all partitions hosted it must count every key: " + out))
         elif kind == "Q":
             if out != " ".join(["rejected/1/1 1/1"] * 5):
-                fails.append(dict(name="leak-" + cid, case=dict(tag=c[1], impl=out),
+                fails.append(dict(name="leak-" + cid, case=dict(keys=c[3], impl=out),
                                   what="a merged command naming a key of a non-hosted partition must be rejected with no effect, and must not leak into the next merged command on the connection (want 5x 'rejected/1/1 1/1'): " + out))
         elif kind == "S":
             if out != "ok":
